@@ -2,6 +2,7 @@ package main
 
 import (
 	"fmt"
+	"go/ast"
 	"path/filepath"
 	"strings"
 )
@@ -15,5 +16,30 @@ func init() {
 			{"consistency_quorum", "ConsistencyLevelQuorum"}, {"consistency_all", "ConsistencyLevelAll"}} {
 			fmt.Fprintf(b, "Definition %s : N := %s%%N.\n", c[0], p.intConst(c[1]))
 		}
+		// the line-protocol and Prometheus write handlers: `consistency := models.ConsistencyLevelOne` then, for a non-empty
+		// parameter, `consistency, err = models.ParseConsistencyLevel(level)`
+		h := loadPkg(filepath.Join(*repo, "services", "httpd"))
+		ok := true
+		for _, fn := range []string{"serveWrite", "servePromWrite"} {
+			fd := h.funcDecl(fn, "Handler")
+			def, parse := false, false
+			ast.Inspect(fd, func(n ast.Node) bool {
+				switch x := n.(type) {
+				case *ast.AssignStmt:
+					if len(x.Lhs) == 1 && len(x.Rhs) == 1 && c17ExprString(x.Lhs[0]) == "consistency" && c17ExprString(x.Rhs[0]) == "models.ConsistencyLevelOne" {
+						def = true
+					}
+				case *ast.CallExpr:
+					if c17ExprString(x.Fun) == "models.ParseConsistencyLevel" {
+						parse = true
+					}
+				}
+				return true
+			})
+			if !def || !parse {
+				ok = false
+			}
+		}
+		writeBool(b, "c03_handler_level_shape", ok)
 	})
 }
